@@ -4725,8 +4725,10 @@ class ResponseFuture(object):
         self._start_timer()
         self.send_request()
 
-    def _reprepare(self, prepare_message, host, connection, pool):
-        cb = partial(self.session.submit, self._execute_after_prepare, host, connection, pool)
+    def _reprepare(self, prepare_message, host, connection, pool, expected_id=None):
+        # expected_id: the id the node reported as unknown (a batch has no single prepared statement)
+        cb = partial(self.session.submit, self._execute_after_prepare, host, connection, pool,
+                     expected_id=expected_id)
         request_id = self._query(host, prepare_message, cb=cb)
         if request_id is None:
             # try to submit the original prepared statement on some other host
@@ -4868,7 +4870,7 @@ class ResponseFuture(object):
                                                      keyspace=prepared_keyspace)
                     # since this might block, run on the executor to avoid hanging
                     # the event loop thread
-                    self.session.submit(self._reprepare, prepare_message, host, connection, pool)
+                    self.session.submit(self._reprepare, prepare_message, host, connection, pool, query_id)
                     return
                 else:
                     if hasattr(response, 'to_exception'):
@@ -4919,7 +4921,7 @@ class ResponseFuture(object):
             self._set_final_exception(ConnectionException(
                 "Failed to set keyspace on all hosts: %s" % (errors,)))
 
-    def _execute_after_prepare(self, host, connection, pool, response):
+    def _execute_after_prepare(self, host, connection, pool, response, expected_id=None):
         """
         Handle the response to our attempt to prepare a statement.
         If it succeeded, run the original query again against the same host.
@@ -4933,16 +4935,19 @@ class ResponseFuture(object):
 
         if isinstance(response, ResultMessage):
             if response.kind == RESULT_KIND_PREPARED:
+                expected_id = self.prepared_statement.query_id if self.prepared_statement else expected_id
+                if expected_id is not None and expected_id != response.query_id:
+                    self._set_final_exception(DriverException(
+                        "ID mismatch while trying to reprepare (expected {expected}, got {got}). "
+                        "This prepared statement won't work anymore. "
+                        "This usually happens when you run a 'USE...' "
+                        "query after the statement was prepared.".format(
+                            expected=hexlify(expected_id), got=hexlify(response.query_id)
+                        )
+                    ))
+                    # the request has failed: do not send it again
+                    return
                 if self.prepared_statement:
-                    if self.prepared_statement.query_id != response.query_id:
-                        self._set_final_exception(DriverException(
-                            "ID mismatch while trying to reprepare (expected {expected}, got {got}). "
-                            "This prepared statement won't work anymore. "
-                            "This usually happens when you run a 'USE...' "
-                            "query after the statement was prepared.".format(
-                                expected=hexlify(self.prepared_statement.query_id), got=hexlify(response.query_id)
-                            )
-                        ))
                     self.prepared_statement.result_metadata = response.column_metadata
                     new_metadata_id = response.result_metadata_id
                     if new_metadata_id is not None:
